@@ -121,6 +121,14 @@ double ticksPerSecond() {
 #endif
 
 double getTime() {
+#if defined(DISPENSO_VERIF)
+  {
+    double verifNow;
+    if (dispenso_verif_clock && dispenso_verif_clock(&verifNow)) {
+      return verifNow;
+    }
+  }
+#endif // DISPENSO_VERIF
   static double secondsPerTick = 1.0 / ticksPerSecond();
   static double startTime = static_cast<double>(detail::timestamp()) * secondsPerTick;
 
@@ -129,6 +137,14 @@ double getTime() {
 }
 #else
 double getTime() {
+#if defined(DISPENSO_VERIF)
+  {
+    double verifNow;
+    if (dispenso_verif_clock && dispenso_verif_clock(&verifNow)) {
+      return verifNow;
+    }
+  }
+#endif // DISPENSO_VERIF
   static auto startTime = std::chrono::high_resolution_clock::now();
   auto cur = std::chrono::high_resolution_clock::now();
 
